@@ -2,6 +2,8 @@
 
 from __future__ import annotations
 
+import copy
+
 from ..core import use_repo
 
 use_repo()
@@ -43,6 +45,67 @@ def run(ctx):
     ctx.sweep(cases, check_case)
     ctx.extra["sweep_cases"] = len(cases)
     e1common.generated(ctx, check_case, n=ctx.pick(600, 30000), profile="replay_crr")
+
+
+def deleting_wrapper_cases():
+    """Plans under message-deleting preprocessors (stub_wrapper, a msg_mutator that drops marked nulls): the deleted
+    yields come right after yields with rich responses (Status, True, readings)."""
+    from hypothesis import strategies as st
+
+    from ..engine import plangen
+    from ..engine.planlang import M, SEQ
+
+    @st.composite
+    def gen(draw):
+        gid = [0]
+
+        def frag():
+            k = draw(st.integers(0, 7))
+            gid[0] += 1
+            g = f"h{gid[0]}"
+            if k == 0:
+                return [M("set", draw(st.sampled_from(["m1", "m2"])), float(draw(st.integers(-2, 2))), group=g)]
+            if k == 1:
+                return [M("set", "m1", 0.5, group=g), M("wait", None, group=g)]
+            if k == 2:
+                return [M("trigger", "d1", group=g), M("wait", None, group=g)]
+            if k == 3:
+                return [M("read", draw(st.sampled_from(["d1", "d2", "m1"])))]
+            if k == 4:
+                return [M("null", None, "dropme")]
+            if k == 5:
+                d = draw(st.sampled_from(["d1", "d2"]))
+                return [M("stage", d), M("null", None, "x"), M("unstage", d)]
+            if k == 6:
+                return [M("open_run", None, tag="inner"), M("null", None, "y"), M("close_run")]
+            return [M("null", None, draw(st.integers(0, 9))), M("sleep", None, 0.0)]
+
+        def block(depth):
+            nodes = []
+            for _ in range(draw(st.integers(2, 6))):
+                if depth < 2 and draw(st.integers(0, 4)) == 0:
+                    nodes.append(block(depth + 1))
+                else:
+                    nodes += frag()
+            return ["wrap", draw(st.sampled_from(["stub", "drop_null", "drop_null"])), {}, SEQ(*nodes)]
+
+        body = [block(0)]
+        if draw(st.booleans()):
+            body = [M("open_run", None, tag="outer"), M("checkpoint")] + body + [M("close_run")]
+        case = {"name": "gen:deleting_wrappers", "plan": SEQ(*body), "devices": copy.deepcopy(plangen.DEVICES), "probe": True, "stages": [{"do": "call"}]}
+        if draw(st.booleans()):
+            case["re"] = {"call_returns_result": True}
+        return case
+
+    return gen()
+
+
+_run0 = run
+
+
+def run(ctx):  # noqa: F811
+    _run0(ctx)
+    ctx.hyp(deleting_wrapper_cases, check_case, max_examples=ctx.pick(400, 10000), tag="del")
 
 
 def replay(case):
